@@ -7,7 +7,7 @@ use super::*;
 mod sup;
 use sup::*;
 
-//# id=slice_range.from_all_range_forms props=C07 kind=complete pair=message.SliceRange.from_RangeFrom.safety,message.SliceRange.from_RangeFull.safety,message.SliceRange.from_RangeTo.safety
+//# id=slice_range.from_all_range_forms fns=SliceRange::from(six range forms) props=C07 kind=complete pair=message.SliceRange.from_RangeFrom.safety,message.SliceRange.from_RangeFull.safety,message.SliceRange.from_RangeTo.safety
 #[cfg_attr(kani, kani::proof)]
 #[cfg_attr(vx_replay, test)]
 fn h_slice_range_from() {
